@@ -91,6 +91,7 @@ var Mutants = map[string][]Mutant{
 		{"ToPDF forgets ReplaceArcs", "path.go", `\tp = p\.ReplaceArcs\(\)\n\n\tsb := strings\.Builder\{\}\n\tvar x, y float64\n\tfor i := 0; i < len\(p\.d\); \{\n\t\tcmd := p\.d\[i\]\n\t\tswitch cmd \{\n\t\tcase MoveToCmd:\n\t\t\tx, y = p\.d\[i\+1\], p\.d\[i\+2\]\n\t\t\tfmt\.Fprintf\(&sb, " %v %v m"`, "\tsb := strings.Builder{}\n\tvar x, y float64\n\tfor i := 0; i < len(p.d); {\n\t\tcmd := p.d[i]\n\t\tswitch cmd {\n\t\tcase MoveToCmd:\n\t\t\tx, y = p.d[i+1], p.d[i+2]\n\t\t\tfmt.Fprintf(&sb, \" %v %v m\"", "E10.consumer"},
 	},
 	"C04": {
+		{"second inflection range ends on the curve, not on the offset", "path_util.go", `(?s)(\tif t2max < 1\.0 \{.*?)addCubicBezierLine\(p, q0, q1, q2, q3, 0\.0, d\)`, "${1}p.LineTo(q0.X, q0.Y)", "E11.offset-vertices-use-offset"},
 		{"inner bend steps back by the length of a line", "path_stroke.go", `ai := i - cmdLen\(p\.d\[i-1\]\)`, "ai := i - cmdLen(LineToCmd)", "E2.backward-step-known-kind"},
 		{"end normals of a cubic from the raw derivative", "path_stroke.go", `n1 := cubicBezierNormal\(start, cp1, cp2, end, 1\.0, halfWidth\)`, "n1 := cubicBezierDeriv(start, cp1, cp2, end, 1.0).Rot90CW().Norm(halfWidth)", "E11.bezier-normal-helper"},
 		{"arcs join passes the first circle's flag form for the second circle", "path_stroke.go", `(\t\tmid = closestArcIntersection\(c1, )0\.0 <= r1(, pivot, i0, i1\))`, "${1}r1 < 0.0${2}", "E11.arc-join-direction-flags"},
@@ -128,6 +129,7 @@ var Mutants = map[string][]Mutant{
 		{"arc cut relative to the arc start", "path.go", `ellipseSplit\(rx, ry, phi, cx, cy, startTheta, theta2, theta\)`, `ellipseSplit(rx, ry, phi, cx, cy, theta1, theta2, theta)`, "E11.cut-carried"},
 	},
 	"C06": {
+		{"line-ellipse quadratic: B of the other elimination", "path_intersection_util.go", `B = 2\.0 \* b \* d \* e`, "B = 2.0 * a * c * e", "E9.ellipse-quadratic-mirror"},
 		{"cubic direction uses the start chords at the end", "path_util.go", `(\} else if Equal\(t, 1\.0\) \{\n\t\t\tif deriv = )p3\.Sub\(p1\)`, "${1}p2.Sub(p0)", "E9.direction-fallback-symmetric"},
 		{"pending hit replaced when the next hit lies elsewhere", "path.go", `\n\t\t\} else if prev == nil \{`, "\n\t\t} else if prev == nil || !prev.Point.Equals(z.Point) {", "E9.pending-not-overwritten"},
 		{"second derivative of the cubic taken at the line parameter", "path_intersection_util.go", `(if endpoint \{\n[^\n]*\n\t\t\t\t\tderiv2 := cubicBezierDeriv2\(p0, p1, p2, p3, )root\)`, "${1}s)", "E9.curve-parameter-domain"},
@@ -225,6 +227,7 @@ var Mutants = map[string][]Mutant{
 		{"Close retags one end only", "path.go", `\t\tp\.d\[len\(p\.d\)-1\] = CloseCmd\n\t\tp\.d\[len\(p\.d\)-cmdLen\(LineToCmd\)\] = CloseCmd\n`, "\t\tp.d[len(p.d)-1] = CloseCmd\n", "E2.retag"},
 	},
 	"C11": {
+		{"rotate accepts two numbers", "svg.go", `if len\(d\) != 1 && len\(d\) != 3 \{`, "if len(d) == 0 || 3 < len(d) {", "E11.svg-transform"},
 		{"a repeated close forgets the removed sub-path", "path.go", `(?s)\t\t\tif wasEmptyClosed \{.*?\} else \{\n\t\t\t\t(p1 = p\.StartPos\(\)\n)\t\t\t\t(p\.Close\(\)\n)\t\t\t\t(emptyClosed = !p\.Pos\(\)\.Equals\(p1\)\n)\t\t\t\}\n`, "\t\t\t_ = wasEmptyClosed\n\t\t\t${1}\t\t\t${2}\t\t\t${3}", "E11.empty-close-keeps-position"},
 		{"smooth cubic after a relative smooth cubic is not reflected", "path.go", `prevCmd == 'C' \|\| prevCmd == 'c' \|\| prevCmd == 'S' \|\| prevCmd == 's'`, "prevCmd == 'C' || prevCmd == 'c' || prevCmd == 'S'", "E11.svg-smooth"},
 		{"parser forgets the position of an empty closed sub-path (reverts fix db9f29f)", "path.go", `\t\t\temptyClosed = !p\.Pos\(\)\.Equals\(p1\)\n`, "", "E11.empty-close-keeps-position"},
@@ -278,6 +281,7 @@ var Mutants = map[string][]Mutant{
 		{"PS eofill outside its guard", "renderers/ps/ps.go", `r\.w\.Write\(\[\]byte\(" fill"\)\)\n\t\t\}\n\t\tif style\.HasStroke\(\) && !strokeUnsupported \{\n\t\t\tr\.w\.Write\(\[\]byte\(" grestore"\)\)`, "r.w.Write([]byte(\" eofill\"))\n\t\t}\n\t\tif style.HasStroke() && !strokeUnsupported {\n\t\t\tr.w.Write([]byte(\" grestore\"))", "E6.enum"},
 	},
 	"C13": {
+		{"catalog written before the language is added", "renderers/pdf/writer.go", `(?s)(\tif w\.lang != "" \{\n\t\tcatalog\["Lang"\] = encode\(w\.lang\)\n\t\}\n)(.*?)(\tw\.objOffsets\[0\] = w\.pos\n\tw\.write\("%v 0 obj\\n", 1\)\n\tw\.writeVal\(catalog\)\n\tw\.write\("\\nendobj\\n"\)\n)`, "${3}${1}${2}", "E5.dict-complete-before-write"},
 		{"DeviceGray declared for every grey colour model", "renderers/pdf/writer.go", `if _, ok := img\.\(\*image\.Gray\); ok \{`, "if m := img.ColorModel(); m == color.GrayModel || m == color.Gray16Model {", "E5.jpeg-colorspace"},
 		{"gradients with fewer than two stops get an empty function dictionary (reverts fix 1e751a6)", "renderers/pdf/writer.go", `(?s)\tif len\(stops\) == 0 \{\n[^\n]*\n\t\treturn patternStopFunction\(canvas\.Stop\{\}, canvas\.Stop\{\}\)\n\t\} else if len\(stops\) == 1 \{\n\t\treturn patternStopFunction\(stops\[0\], stops\[0\]\)\n\t\}\n`, "\tif len(stops) < 2 {\n\t\treturn pdfDict{}\n\t}\n", "E5.function-dict-never-empty"},
 		{"gradient boundary appended before the function under a length guard", "renderers/pdf/writer.go", `(?s)\t\tfs = append\(fs, patternStopFunction\(stops\[i\], stops\[i\+1\]\)\)\n\t\tencode = append\(encode, 0, 1\)\n\t\tif i != 0 \{\n\t\t\tbounds = append\(bounds, stops\[i\]\.Offset\)\n\t\t\}\n`, "\t\tif 0 < len(fs) {\n\t\t\tbounds = append(bounds, stops[i].Offset)\n\t\t}\n\t\tfs = append(fs, patternStopFunction(stops[i], stops[i+1]))\n\t\tencode = append(encode, 0, 1)\n", "E5.stitching-arity"},
